@@ -510,6 +510,14 @@ pub fn attr_soup(ch: &mut Choices) -> String {
         "should_panic", "available_gas", "ignore", "doc", "flat", "key", "substorage", "phantom", "default", "executable", "cairofmt::skip",
         "embeddable", "embeddable_as", "starknet::embeddable", "per_item", "nested", "unstable", "deprecated", "internal", "rename", "serde",
         "sub_pointers", "starknet::storage_node", "starknet::store", "external_attr_validation", "expand", "hidden",
+        // The remaining attribute names the crates declare (`*_ATTR` constants), added after seeded change C09-r3.
+        "panic_with", "panic_with", "allow_attr", "executable_raw", "raw_output", "group", "path", "target_function", "starknet::forward_impl",
+        "starknet::colliding_storage_paths", "starknet::invalid_storage_member_types", "starknet::store_no_default_variant", "starknet::sub_pointers",
+    ];
+    // Return types of the functions the attributes sit on: well-formed and ill-formed generic argument lists.
+    const RETS: &[&str] = &[
+        "", " -> u8", " -> Option<u8>", " -> Result<u8, felt252>", " -> Option<>", " -> Result<>", " -> Option<u8, u8>", " -> Result<u8>", " -> Option",
+        " -> Option<Option<>>", " -> (u8,)", " -> ()", " -> Array<>", " -> [u8; 0]", " -> core::option::Option::<>", " -> Result<(), ()>", " -> !",
     ];
     const WORDS: &[&str] = &["not", "and", "or", "feature", "target", "test", "v0", "embed_v0", "per_item", "expected", "a", "b", "Drop", "Copy", "Serde", "PartialEq", "core::RangeCheck", "always", "never", "\"x\"", "\"\"", "1", "0", "-1", "'s'", "true", "_", "Self", "T", "u8"];
     fn arg(ch: &mut Choices, depth: usize) -> String {
@@ -535,13 +543,46 @@ pub fn attr_soup(ch: &mut Choices) -> String {
             let n = ch.below(4);
             let args: Vec<String> = (0..n).map(|_| arg(ch, 0)).collect();
             let bang = if ch.chance(1, 12) { "!" } else { "" };
+            // Well-formed arguments for the attributes that validate them, so that the item behind
+            // the attribute is reached by the plugin.
+            let canonical = match name {
+                "panic_with" => Some("('msg', pw)"),
+                "derive" => Some("(Drop, Copy, Serde, PartialEq, Debug, Default, Hash, Clone, Destruct, PanicDestruct)"),
+                "inline" => Some("(always)"),
+                "cfg" => Some("(test)"),
+                "feature" => Some("(\"x\")"),
+                "should_panic" => Some("(expected: 'a')"),
+                "available_gas" => Some("(100)"),
+                "implicit_precedence" => Some("(core::RangeCheck)"),
+                "embeddable_as" => Some("(X)"),
+                "doc" => Some("(hidden)"),
+                "deprecated" => Some("(feature: \"x\", note: \"n\")"),
+                "unstable" | "internal" => Some("(feature: \"x\")"),
+                "allow" => Some("(unused_variables)"),
+                _ => None,
+            };
+            if let (Some(c), true) = (canonical, shape >= 4) {
+                out.push_str(&format!("#{bang}[{name}{c}]\n"));
+                continue;
+            }
             match shape {
                 0 => out.push_str(&format!("#{bang}[{name}]\n")),
                 1 => out.push_str(&format!("#{bang}[{name}()]\n")),
                 _ => out.push_str(&format!("#{bang}[{name}({})]\n", args.join(", "))),
             }
         }
-        out.push_str(match ch.below(9) {
+        let pick = ch.below(12);
+        if pick >= 9 {
+            let ret = *ch.pick(RETS);
+            let name = ["f", "try_bar", "g"][ch.below(3)];
+            out.push_str(&match pick {
+                9 => format!("extern fn {name}(a: felt252){ret} nopanic;\n"),
+                10 => format!("fn {name}(a: felt252){ret} {{ loop {{}} }}\n"),
+                _ => format!("trait T{k} {{ fn {name}(a: felt252){ret}; }}\n"),
+            });
+            continue;
+        }
+        out.push_str(match pick {
             0 => "fn f() {}\n",
             1 => "struct S { #[key] a: felt252, b: u8 }\n",
             2 => "enum E { A, #[default] B: u8 }\n",
